@@ -163,16 +163,11 @@ Definition nf_signature (v : gv) : option (option json) :=
 
 (** ---------------------------------------------------------------- matrix *)
 
-(** isEmptyValue of a retained value (`skip,omitempty`) *)
+(** a `skip` is left out of the normal form only when it means "do not skip" (null, false) *)
 Definition is_empty (g : gv) : bool :=
   match g with
   | GNull => true
   | GBool b => negb b
-  | GInt z => Z.eqb z 0
-  | GFloat j _ => String.eqb j "0" || String.eqb j "-0"
-  | GStr s => String.eqb s ""
-  | GSeq [] => true
-  | GUMap [] => true
   | _ => false
   end.
 
